@@ -55,7 +55,7 @@ PROPS.update({
     'C05': _e2e(['store', 'mix'], ['C05'], ['outcome', 'headers', 'writes']),
     'C06': _e2e(['store', 'mix'], ['C06'], ['outcome', 'writes']),
     'C07': _e2e(['inval'], ['C07'], ['outcome', 'ncalls', 'store']),
-    'C08': _e2e(['freshen', 'mix'], ['C08'], ['outcome', 'calls', 'store_full']),
+    'C08': _e2e(['freshen', 'mix'], ['C08', 'C04'], ['outcome', 'calls', 'store_full']),   # mon_C04: what a later request gets from the store is its own variant's (freshened or replaced) response
     'C09': _e2e(['hit', 'mix'], ['C09'], ['outcome', 'ncalls', 'cache_status']),
     'C11': _e2e(['age', 'mix'], ['C11'], ['outcome', 'cache_status', 'age', 'ncalls']),
     'C12': _e2e(['spell'], ['C01', 'C02', 'C06', 'C09', 'C13', 'C18'], ['outcome', 'calls', 'cache_status', 'age', 'store']),
